@@ -626,6 +626,8 @@ class TryCatch(Rule):
 PRE_RULES = [
     Sub(r"\bfor\s*\(\s*;\s*;\s*\)", "while (1)", None),
     Sub(r"\bwhile\s*\(\s*true\s*\)", "while (1)", None),
+    # for (init;; step): an empty condition is `true`; CBMC silently drops a loop contract on a for-loop without a condition
+    Sub(r"\bfor\s*\(([^;(){}]+);\s*;(?=[^;(){}]*\))", r"for (\1; 1;", None),
 ]
 
 GENERIC_RULES = [
